@@ -730,7 +730,7 @@ pub fn run_parent(spec: RunSpec, regressions: bool) -> i32 {
         "violations": merged.violations.len(),
     });
     // evidence/ describes /repo; a run against another source tree (tools/mutant_check.sh) writes its evidence next to its build output
-    let edir = if std::env::var("RWS_VERIF_SRC").map(|s| s != "/repo").unwrap_or(false) { PathBuf::from(verif_dir()).join(".build").join("alt").join("evidence") } else { PathBuf::from(verif_dir()).join("evidence") };
+    let edir = if std::env::var("RWS_VERIF_SRC").map(|s| s != "/repo").unwrap_or(false) { PathBuf::from(verif_dir()).join(".build").join(std::env::var("RWSV_ALT").unwrap_or_else(|_| "alt".to_string())).join("evidence") } else { PathBuf::from(verif_dir()).join("evidence") };
     let _ = std::fs::create_dir_all(&edir);
     std::fs::write(edir.join(format!("{}.json", spec.property)), serde_json::to_vec_pretty(&evidence).unwrap()).unwrap();
     println!("{} {} seed={} evaluations={} distinct_nontrivial={} known={} violations={} wall={:.1}s exit={}",
